@@ -418,6 +418,12 @@ ORD = {0: (None, "obj", "typedef", "enumr"), 1: (None, "obj"), 2: (None, "obj", 
        4: (None, "obj", "typedef", "enumr")}
 TAG = {0: (None,) + DEFS + FWD, 1: (None,) + DEFS + ("sfwd", "ufwd"), 2: (None,) + DEFS + FWD, 3: (None,), 4: (None,) + DEFS + FWD}
 LABELS = (None, "block", "inner")
+# label NAME space: next to the label x a DECOY label whose spelling is related to x - a proper prefix of it (`x`), an extension
+# (`x<i>0`), x as its suffix (`yx<i>`), a case variant (`X<i>`) - defined EARLY (first statement of the body, before x) or LATE
+# (last statement, after x).  `goto x` must still reach x: reaching the decoy executes probes the model skips, or skips more.
+DECOY_REL = ("pfx", "ext", "sfx", "cas")
+DECOY_POS = ("early", "late")
+DECOYS = tuple("%s-%s" % (r, p) for r in DECOY_REL for p in DECOY_POS)
 
 
 class Case(Base):
@@ -425,6 +431,8 @@ class Case(Base):
 
     def __init__(self, ord_, tag, label):
         self.ordt, self.tagt, self.label = tuple(ord_), tuple(tag), label
+        self.labpos, _, self.decoy = (label or "").partition("/")        # label = position of x [ "/" relation "-" position of a decoy ]
+        self.labpos = self.labpos or None
         self.ord = dict(enumerate(self.ordt))
         self.tag = dict(enumerate(self.tagt))
 
@@ -461,7 +469,7 @@ class Case(Base):
         # goto x from the top of the body: probes before the label are not executed (file-scope ones are constants).  The label
         # in 'block' sits after site after-block-decls; in 'inner' at the end of the for body (the for condition is evaluated
         # again after the increment)
-        skip = {None: None, "block": (S_ENTRY, S_BLOCK), "inner": (S_ENTRY, S_BLOCK, S_BODY, S_INNER, S_INNER2)}[self.label]
+        skip = {None: None, "block": (S_ENTRY, S_BLOCK), "inner": (S_ENTRY, S_BLOCK, S_BODY, S_INNER, S_INNER2)}[self.labpos]
         return self.model_runs(CH_STMT_SITES, skip)
 
     def source(self, i):
@@ -481,12 +489,15 @@ class Case(Base):
         else: pb = "void *p"
         f = ["void FN(f%d)(%s, %s) {" % (i, pa, pb)]
         f.append("int k = 0; %s %sg%d();" % (" ".join("FN(out)[%d] = pf%d[%d];" % (k, i, k) for k in range(3)), "pfn%d(); " % i if nc else "", i))
+        dname = {"": None, "pfx": "x", "ext": X + "0", "sfx": "y" + X, "cas": X.upper()}[self.decoy.split("-")[0]]
         if self.label:
             f.append("if (FN(jmp)) goto %s;" % X)
+        if self.decoy.endswith("-early"):
+            f.append("%s: ;" % dname)
         f.append(self.pstmt(S_ENTRY, X, i))
         f += [self.tagdecl(2, X, i), self.orddecl(2, X, i)]
         f.append(self.pstmt(S_BLOCK, X, i))
-        if self.label == "block":
+        if self.labpos == "block":
             f.append("%s: ;" % X)
         init = self.orddecl(3, X, i)
         f.append("for (%s; %s; %s) {" % (init, self.pexpr(S_COND, X, i, "k < 1"), self.pexpr(S_INC, X, i, "k++")))
@@ -495,12 +506,14 @@ class Case(Base):
         f.append(self.pstmt(S_INNER, X, i))
         f.append(self.latedecl(4, X))
         f.append(self.pstmt(S_INNER2, X, i))
-        if self.label == "inner":
+        if self.labpos == "inner":
             f.append("%s: ;" % X)
         f.append("}")
         f.append(self.pstmt(S_AFTER, X, i))
         f.append(self.latedecl(2, X))
         f.append(self.pstmt(S_AFTER2, X, i))
+        if self.decoy.endswith("-late"):
+            f.append("%s: ;" % dname)
         f.append("}")
         lines.append(" ".join(x for x in f if x))
         lines.append(self.latedecl(0, X))
@@ -511,6 +524,8 @@ class Case(Base):
 
     def shrinks(self):
         out = []
+        if self.decoy:
+            out.append(self.__class__(self.ordt, self.tagt, self.labpos))
         if self.label:
             out.append(self.__class__(self.ordt, self.tagt, None))
         for l in range(5):
@@ -700,7 +715,8 @@ class StmtCase(Base):
 
 
 def enum_cases(tier):
-    """quick: chain cases with at most 3 declarations (labels with at most 2), stmt cases with at most 3 declarations;
+    """label-name decoys (DECOYS) next to the label x: chains with a file-scope ordinary x and at most 2 (thorough 3) declarations;
+    quick: chain cases with at most 3 declarations (labels with at most 2), stmt cases with at most 3 declarations;
     thorough: chain: at most 5 declarations (labels with at most 4) plus all combinations of the definition kinds
     (no incomplete declarations) with all labels; stmt: at most 5 declarations;
     point: ordinary declarations only / tags only: at most 3 (thorough: 5 = all) declarations, at least one self-referential;
@@ -708,6 +724,7 @@ def enum_cases(tier):
     likewise (one name space, or a self-referential declaration in each; at most 3 (thorough: 4) declarations)"""
     out = []
     cmax, lmax, smax = (3, 2, 3) if tier == "quick" else (5, 4, 5)
+    dmax = 2 if tier == "quick" else 3          # label-name decoys: chains with a file-scope ordinary x and at most this many declarations
     pmax, pmix = (3, 3) if tier == "quick" else (5, 4)
     ords = [(o, sum(1 for v in o if v)) for o in itertools.product(*[ORD[l] for l in range(5)]) if not (o[1] and o[2])]
     tags = []
@@ -724,6 +741,8 @@ def enum_cases(tier):
                 if lab and d > lmax and not full:
                     continue
                 out.append(Case(o, t, lab))
+                if lab and d <= dmax and o[0]:       # a file-scope ordinary x: every probe site observes something
+                    out += [Case(o, t, lab + "/" + dc) for dc in DECOYS]
     none = (None,) * 5
     pords = [(o, sum(1 for v in o if v)) for o in itertools.product(*[P_ORD[l] for l in range(5)]) if any(v in SELF_ORD for v in o)]
     pords = [(o, n) for o, n in pords if n <= pmax and PointCase(o, none, None).valid()]
